@@ -725,7 +725,11 @@ def cli_list_cell(P, A):
         with Capture(W) as cap:
             out = call(lambda: W.cli.main([cmd, '-f'] + paths), W.exc)
         B.hit()
-        records = [a[0] for a in cap.prints if len(a) == 1 and isinstance(a[0], str) and ': ' in a[0]]
+        valid_paths = [p for p, k in zip(paths, kinds) if k in VALID_CLASS]
+        printed = [a[0] for a in cap.prints if len(a) == 1 and isinstance(a[0], str)]
+        # the class lines of the valid files, in the order printed (a file may be marked invalid on
+        # either stream; only the valid files' lines are compared exactly)
+        records = [r for r in printed if any(r.startswith(p + ': ') for p in valid_paths)]
         want = ['%s: %s' % (p, VALID_CLASS[k]) for p, k in zip(paths, kinds) if k in VALID_CLASS]
         err = cap.err.getvalue()
         if out.raised:
@@ -734,7 +738,7 @@ def cli_list_cell(P, A):
             sig = 'files-not-all-reported-in-order'
         else:
             for p, k in zip(paths, kinds):
-                if k not in VALID_CLASS and p not in err:
+                if k not in VALID_CLASS and p not in err and not any(p in r for r in printed):
                     sig = 'invalid-file-not-marked'
             if sig is None and cmd == 'inspect' and out.result == 2:
                 sig = 'inspect-aborted'
